@@ -1221,7 +1221,7 @@ func dupNamesCase(r *hlib.Rng, s *hlib.Suite) {
 	// Eval of a constant into a new column must leave both columns of that name alone
 	in2 := qframe.VerifDump(g)
 	desc2 := map[string]interface{}{"op": "eval", "dst": "NEWCOL", "expr": "5", "derivation": []string{"select(" + strings.Join(names, ",") + ")", "apply " + ic.name + " := fn1(" + ic.name + ")"},
-		"props": []string{"C07", "C10", "C01"}, "class": "duplicate-column-names"}
+		"props": []string{"C07"}, "class": "duplicate-column-names"}
 	od2, ok := runOp(s, g, desc2, func() qframe.QFrame { return g.Eval("NEWCOL", qframe.Val(5)) })
 	if !ok {
 		return
